@@ -4,6 +4,7 @@
 package given
 
 import (
+	"os"
 	"strings"
 
 	"github.com/nlnwa/whatwg-url/url"
@@ -16,6 +17,9 @@ type toASCIIer interface {
 var direct toASCIIer
 
 func init() {
+	if os.Getenv("VERIF_FORCE_PROBE") != "" {
+		return // development: exercise the API-only fallback
+	}
 	if t, ok := url.NewParser().(toASCIIer); ok {
 		direct = t
 	}
